@@ -265,7 +265,10 @@ def run(ctx):
     for c in range(ncfg):
         cfg = rand_config(ctx.rng, T)
         scripts.append({"config": cfg, "histories": [rand_history(ctx.rng, cfg, hl, conc=(i % 2 == 1)) for i in range(nh)]})
-    scripts.append(storm_script(ctx.rng, 3000 if not T else 30000, 8))
+    # one storm script = 3000 fresh keys (the key set is a constant of the trace spec: 30 000 keys in one trace made every
+    # state evaluation 10x dearer and the validation ran into the time limit); the thorough tier runs ten such scripts
+    for _ in range(1 if not T else 10):
+        scripts.append(storm_script(ctx.rng, 3000, 8))
     for cfg in class_configs():
         scripts.append({"config": cfg, "histories": [class_history(ctx.rng, cfg) for _ in range(3)]})
     for _ in range(8 if not T else 60):
